@@ -138,3 +138,52 @@ package binaryheap
 
 //@ func Heap.withinRange
 //@   inline
+
+// ---- JSON (C11 round trip, C12 replace / sound / atomic) ----
+
+//@ func Heap.ToJSON
+//@   requires Inv(heap)
+//@   modifies nothing
+//@   ensures [C11 C17 C18] result1 == nil && fresh(arr(result0)) && jarr_kind(result0, elemof(heap.list.elements)) == 3 && jarr_len(result0, elemof(heap.list.elements)) == N(heap)
+//@     && (forall i :: 0 <= i && i < N(heap) ==> jarr_at(result0, i, elemof(heap.list.elements)) == L(heap)[i])
+
+//@ func Heap.MarshalJSON
+//@   requires Inv(heap)
+//@   modifies nothing
+//@   ensures [C11 C17 C18] result1 == nil && fresh(arr(result0)) && jarr_kind(result0, elemof(heap.list.elements)) == 3 && jarr_len(result0, elemof(heap.list.elements)) == N(heap)
+//@     && (forall i :: 0 <= i && i < N(heap) ==> jarr_at(result0, i, elemof(heap.list.elements)) == L(heap)[i])
+
+//@ -- the loaded content is the document rearranged by src (a permutation): heap order is re-established (C06, C12)
+//@ func Heap.FromJSON
+//@   requires Inv(heap)
+//@   modifies heap.list.elements, elems(heap.list.elements)
+//@   ghostvar src := idmap
+//@   ghostvar sinv := idmap
+//@   at after bubbleDownIndex#1: src := maplam(\k. src[res_perm[k]])
+//@   at after bubbleDownIndex#1: sinv := maplam(\k. res_pinv[sinv[k]])
+//@   loop 1:
+//@     invariant Shape(heap) && Config(heap) && 0 - 1 <= i && OrdFrom(heap, i + 1) && err == nil && jarr_kind(data, elemof(heap.list.elements)) >= 2
+//@     invariant (jarr_kind(data, elemof(heap.list.elements)) == 2 ==> N(heap) == 0) && (jarr_kind(data, elemof(heap.list.elements)) == 3 ==> N(heap) == jarr_len(data, elemof(heap.list.elements)))
+//@     invariant IsPerm(src, sinv, N(heap)) && (jarr_kind(data, elemof(heap.list.elements)) == 3 ==> (forall k :: 0 <= k && k < N(heap) ==> L(heap)[k] == jarr_at(data, src[k], elemof(heap.list.elements))))
+//@     decreases i + 1
+//@   ghostresult src mapint
+//@   ghostresult sinv mapint
+//@   ensures [C06 C12 C17] Inv(heap) && Config(heap) && (result == nil <==> jarr_kind(data, elemof(heap.list.elements)) >= 2)
+//@   ensures [C12] atomic: result != nil ==> L(heap) == old(L(heap))
+//@   ensures [C06 C11 C12] loaded: jarr_kind(data, elemof(heap.list.elements)) == 3 ==> N(heap) == jarr_len(data, elemof(heap.list.elements)) && IsPerm(src, sinv, N(heap)) && (forall k :: 0 <= k && k < N(heap) ==> L(heap)[k] == jarr_at(data, src[k], elemof(heap.list.elements)))
+//@   ensures [C12] null: jarr_kind(data, elemof(heap.list.elements)) == 2 ==> N(heap) == 0
+
+//@ -- the loaded content is the document rearranged by src (a permutation): heap order is re-established (C06, C12)
+//@ func Heap.UnmarshalJSON
+//@   requires Inv(heap)
+//@   modifies heap.list.elements, elems(heap.list.elements)
+//@   ghostvar src := idmap
+//@   ghostvar sinv := idmap
+//@   at after FromJSON#1: src := res_src
+//@   at after FromJSON#1: sinv := res_sinv
+//@   ghostresult src mapint
+//@   ghostresult sinv mapint
+//@   ensures [C06 C12 C17] Inv(heap) && Config(heap) && (result == nil <==> jarr_kind(bytes, elemof(heap.list.elements)) >= 2)
+//@   ensures [C12] atomic: result != nil ==> L(heap) == old(L(heap))
+//@   ensures [C06 C11 C12] loaded: jarr_kind(bytes, elemof(heap.list.elements)) == 3 ==> N(heap) == jarr_len(bytes, elemof(heap.list.elements)) && IsPerm(src, sinv, N(heap)) && (forall k :: 0 <= k && k < N(heap) ==> L(heap)[k] == jarr_at(bytes, src[k], elemof(heap.list.elements)))
+//@   ensures [C12] null: jarr_kind(bytes, elemof(heap.list.elements)) == 2 ==> N(heap) == 0
